@@ -160,6 +160,17 @@ check("C09", "DESIGN.md 5/C09",
       "names and cells with the model.",
       "Trusted: gamma/alpha. Numeric data under C() counts as unseen levels, not as a kind change (DESIGN section 11), and is not enumerated.")
 
+check("C11", "DESIGN.md 5/C11",
+      "TLA+ module Contrasts.tla defines every built-in coding twice (textbook coding matrix and textbook interpretation) in exact "
+      "rationals; TLC proves they are mutually inverse for n = 1..N and every option; exhaustive replay of matrices, metadata and encodings",
+      "TLC decides that [1 | coding] . interpretation = I for treatment (every base), SAS, sum, Helmert (both directions, scaled or not) and "
+      "difference (both directions) for every n up to the bound, sizes and zero column sums, and exact orthogonality of the polynomial "
+      "contrasts' monic polynomials; the real classes are compared (dense, sparse, via ContrastsState) under three labelings, and every "
+      "data vector of length <= 3 over levels + {null, unseen} is encoded through encode_contrasts (3 outputs, reduced and full) and "
+      "through model_matrix('C(x, contr...)').",
+      "Trusted: sqrt for the polynomial normalisation and a 1e-10 float comparison in the harness. Polynomial contrasts exact to n = 5 "
+      "(32-bit rationals).")
+
 NOT_YET = "check not yet built in this round (planned; see DESIGN.md section 5)"
 
 
